@@ -43,6 +43,8 @@ def lin_of(e: Optional[ast.AST], du: DefUse, depth: int = 0) -> Optional[Lin]:
         cn = call_name(e) or ""
         if cn == "len" and len(e.args) == 1:
             d = dotted(e.args[0])
+            if d and isinstance(e.args[0], ast.Name):
+                return length_of_name(d, du, du.func)
             return {f"len:{d}": 1} if d else None
         if cn in ("int", "bool") and len(e.args) == 1:
             d = dotted(e.args[0])
@@ -76,9 +78,10 @@ def list_layout(fn: ast.AST, du: DefUse, name: str) -> Optional[List[Section]]:
     for el in inits[0].value.elts:  # type: ignore[union-attr]
         if isinstance(el, ast.Starred):
             d = dotted(el.value)
-            if not d:
+            t = trip_count(el.value, du, fn, 1)
+            if t is None:
                 return None
-            secs.append(Section({f"len:{d}": 1}, d, inits[0].stmt))
+            secs.append(Section(t[0], d or t[1], inits[0].stmt))
         else:
             secs.append(Section({"": 1}, "<element>", inits[0].stmt))
     calls = [c for c in walk_no_nested(fn) if isinstance(c, ast.Call) and isinstance(c.func, ast.Attribute) and isinstance(c.func.value, ast.Name) and c.func.value.id == name]
@@ -89,8 +92,22 @@ def list_layout(fn: ast.AST, du: DefUse, name: str) -> Optional[List[Section]]:
             if meth in ("insert", "pop", "remove", "clear", "sort", "reverse"):
                 return None
             continue
-        if any(isinstance(p, (ast.For, ast.While)) for p in _parents_upto(c, fn)):
-            return None
+        loops = [p for p in _parents_upto(c, fn) if isinstance(p, (ast.For, ast.While))]
+        if loops:
+            # one unconditional append per iteration of a single `for` loop without break / continue
+            lp = loops[0]
+            st = c
+            while getattr(st, "parent", None) is not lp and st is not None:
+                st = getattr(st, "parent", None)
+            if (len(loops) != 1 or not isinstance(lp, ast.For) or lp.orelse or meth != "append" or st not in lp.body or not isinstance(st, ast.Expr)
+                    or any(isinstance(x, (ast.Break, ast.Continue, ast.Return)) for b in lp.body for x in ast.walk(b))
+                    or _enclosing_if_conditions(lp, fn) != []):
+                return None
+            t = trip_count(lp.iter, du, fn)
+            if t is None:
+                return None
+            secs.append(Section(t[0], t[1], c))
+            continue
         conds = _enclosing_if_conditions(c, fn)
         if conds is None or len(conds) > 1 or not c.args:
             return None
@@ -110,13 +127,143 @@ def list_layout(fn: ast.AST, du: DefUse, name: str) -> Optional[List[Section]]:
             if isinstance(a, ast.GeneratorExp) or isinstance(a, ast.ListComp):
                 if len(a.generators) != 1 or a.generators[0].ifs:
                     return None
-                d = dotted(a.generators[0].iter)
+                coll = a.generators[0].iter
             else:
-                d = dotted(a)
-            if not d:
+                coll = a
+            d = dotted(coll)
+            t = trip_count(coll, du, fn, 1)
+            if t is None:
                 return None
-            secs.append(Section({f"len:{d}": 1}, d, c))
+            secs.append(Section(t[0], d or t[1], c))
     return secs
+
+
+def trip_count(it: ast.AST, du: DefUse, fn: ast.AST, depth: int = 0) -> Optional[Tuple[Lin, str]]:
+    """(number of iterations, source text) of `for … in it` as a linear form.  `C[:N]` counts N iterations
+    (assumes len(C) >= N: the callers slice by the arities the primitive guarantees)."""
+    if depth > 3:
+        return None
+    if isinstance(it, ast.Call):
+        cn = call_name(it) or ""
+        if cn == "range" and len(it.args) == 1:
+            l = lin_of(it.args[0], du)
+            return (l, f"range({src(it.args[0], 30)})") if l is not None else None
+        if cn == "range" and len(it.args) == 2:
+            a, b = lin_of(it.args[0], du), lin_of(it.args[1], du)
+            return (lin_add(b, a, -1), src(it, 40)) if a is not None and b is not None else None
+        if cn in ("enumerate", "list", "tuple", "reversed") and it.args:
+            return trip_count(it.args[0], du, fn, depth + 1)
+        if cn == "zip" and it.args:
+            ts = [trip_count(a, du, fn, depth + 1) for a in it.args]
+            if all(t is not None for t in ts) and all(t[0] == ts[0][0] for t in ts):  # type: ignore[index]
+                return ts[0]
+            return None
+        return None
+    if isinstance(it, ast.Subscript) and isinstance(it.slice, ast.Slice) and it.slice.step is None:
+        base = dotted(it.value)
+        if not base:
+            return None
+        lo, hi = it.slice.lower, it.slice.upper
+        if lo is None and hi is not None:
+            l = lin_of(hi, du)
+            return (l, src(it, 40)) if l is not None else None
+        if lo is not None and hi is None:
+            l = lin_of(lo, du)
+            return (lin_add({f"len:{base}": 1}, l, -1), src(it, 40)) if l is not None else None
+        if lo is not None and hi is not None:
+            a, b = lin_of(lo, du), lin_of(hi, du)
+            return (lin_add(b, a, -1), src(it, 40)) if a is not None and b is not None else None
+        return None
+    d = dotted(it)
+    if d:
+        if isinstance(it, ast.Name):
+            return length_of_name(d, du, fn), d
+        return {f"len:{d}": 1}, d
+    return None
+
+
+_IN_PROGRESS: set = set()
+
+
+def length_of_name(name: str, du: DefUse, fn: ast.AST) -> Lin:
+    """Canonical length of a local collection: the sum of its sections when it is a locally assembled list, the
+    trip count of its single defining slice / range / list(...) expression, else the atom len:<name>."""
+    key = (id(fn), name)
+    if key in _IN_PROGRESS:
+        return {f"len:{name}": 1}
+    _IN_PROGRESS.add(key)
+    try:
+        inner = list_layout(fn, du, name)
+        if inner:
+            return prefix_sums(inner)[-1]
+        defs = [x for x in du.defs.get(name, []) if x.kind != "setitem"]
+        if len(defs) == 1 and defs[0].kind == "assign" and defs[0].value is not None and isinstance(defs[0].value, (ast.Subscript, ast.Call)):
+            t = trip_count(defs[0].value, du, fn, 1)
+            if t is not None:
+                return t[0]
+        return {f"len:{name}": 1}
+    finally:
+        _IN_PROGRESS.discard(key)
+
+
+def index_range(sub: ast.Subscript, du: DefUse, fn: ast.AST) -> Optional[Tuple[Lin, Optional[Lin], str]]:
+    """For `L[E + i]` with `i` the index variable of an enclosing `for i in range(N)` / `for i, x in enumerate(C)`:
+    (start, trip count or None, loop text).  For a plain `L[E]`: (E, {"":1}, "")."""
+    e = sub.slice
+    if isinstance(e, ast.Slice):
+        return None
+    loops = [p for p in _parents_upto(sub, fn) if isinstance(p, ast.For)]
+    idx_vars: Dict[str, ast.For] = {}
+    for lp in loops:
+        t = lp.target
+        it = lp.iter
+        if isinstance(t, ast.Name) and isinstance(it, ast.Call) and (call_name(it) or "") == "range":
+            idx_vars.setdefault(t.id, lp)
+        if isinstance(t, ast.Tuple) and t.elts and isinstance(t.elts[0], ast.Name) and isinstance(it, ast.Call) and (call_name(it) or "") == "enumerate":
+            idx_vars.setdefault(t.elts[0].id, lp)
+    # split E + i
+    terms: List[ast.AST] = []
+
+    def flat(x: ast.AST) -> bool:
+        if isinstance(x, ast.BinOp) and isinstance(x.op, ast.Add):
+            return flat(x.left) and flat(x.right)
+        terms.append(x)
+        return True
+    flat(e)
+    ivs = [t for t in terms if isinstance(t, ast.Name) and t.id in idx_vars]
+    if len(ivs) > 1:
+        return None
+    rest: Lin = {}
+    for t in terms:
+        if t in ivs:
+            continue
+        l = lin_of(t, du)
+        if l is None:
+            return None
+        rest = lin_add(rest, l)
+    if not ivs:
+        if any(k.startswith("name:") and k[5:] in {n for lp in loops for n in _target_names(lp.target)} for k in rest):
+            return None  # indexed by something computed from a loop variable
+        return rest, {"": 1}, ""
+    lp = idx_vars[ivs[0].id]
+    it = lp.iter
+    if (call_name(it) or "") == "range" and len(it.args) == 2:  # type: ignore[arg-type]
+        a = lin_of(it.args[0], du)  # type: ignore[union-attr]
+        if a is None:
+            return None
+        rest = lin_add(rest, a)
+    t = trip_count(it, du, fn)
+    return rest, (t[0] if t is not None else None), src(it, 40)
+
+
+def _target_names(t: ast.AST):
+    for x in ast.walk(t):
+        if isinstance(x, ast.Name):
+            yield x.id
+
+
+def atoms(l: Lin) -> set:
+    return {k for k in l if k}
 
 
 def _enclosing_if_conditions(c: ast.AST, fn: ast.AST):
